@@ -12,6 +12,9 @@ import (
 
 	"pgregory.net/rapid"
 
+	"github.com/gorilla/mux"
+
+	"github.com/MichaelMure/git-bug/api/auth"
 	"github.com/MichaelMure/git-bug/api/graphql"
 	"github.com/MichaelMure/git-bug/api/graphql/connections"
 	"github.com/MichaelMure/git-bug/api/graphql/models"
@@ -22,6 +25,7 @@ import (
 	"github.com/MichaelMure/git-bug/entity/dag"
 	"github.com/MichaelMure/git-bug/repository"
 
+	"verif/harness/internal/faultrepo"
 	"verif/harness/internal/report"
 )
 
@@ -547,6 +551,9 @@ type c20WalkCase struct {
 	NBugs    int    `json:"n_bugs"`
 	Comments []int  `json:"comments"` // per bug: number of extra comments (authors rotate)
 	Labels   []int  `json:"labels"`   // per bug: number of labels
+	// FailK >= 0: before the walks a user adds a comment to the walked bug through the API, and the FailK-th storage
+	// operation of that request fails (the request is answered with an error, or succeeds when it needs fewer)
+	FailK int `json:"fail_k"`
 }
 
 func genC20Walk(t *rapid.T) c20WalkCase {
@@ -555,6 +562,7 @@ func genC20Walk(t *rapid.T) c20WalkCase {
 		c.Comments = append(c.Comments, rapid.IntRange(0, 5).Draw(t, "comments"))
 		c.Labels = append(c.Labels, rapid.IntRange(0, 4).Draw(t, "labels"))
 	}
+	c.FailK = rapid.IntRange(-6, 8).Draw(t, "failK")
 	return c
 }
 
@@ -673,8 +681,10 @@ func runC20Walk(tb report.TB, rep *report.Reporter, c c20WalkCase) {
 	if err != nil {
 		tb.Fatalf("harness: %v", err)
 	}
+	fr := faultrepo.New(repo, -1)
+	fr.Transient = true
 	mrc := cache.NewMultiRepoCache()
-	_, events := mrc.RegisterDefaultRepository(repo)
+	_, events := mrc.RegisterDefaultRepository(fr)
 	for ev := range events {
 		if ev.Err != nil {
 			tb.Fatalf("harness: %v", ev.Err)
@@ -682,6 +692,7 @@ func runC20Walk(tb report.TB, rep *report.Reporter, c c20WalkCase) {
 	}
 	defer mrc.Close()
 	h := graphql.NewHandler(mrc, nil)
+	userId := me.Id()
 
 	type listSpec struct{ name, pathFmt, key string }
 	lists := []listSpec{
@@ -693,6 +704,55 @@ func runC20Walk(tb report.TB, rep *report.Reporter, c c20WalkCase) {
 	bid := bugIds[int(c.Seed%uint64(len(bugIds)))]
 	for _, sub := range []struct{ f, key string }{{"comments", "id"}, {"timeline", "id"}, {"operations", "id"}, {"actors", "id"}, {"participants", "id"}} {
 		lists = append(lists, listSpec{"bug." + sub.f, `{ repository { bug(prefix: "` + bid + `") { ` + sub.f + `%s { %s } } } }`, sub.key})
+	}
+	// ---- a request that fails half-way (or not), then the lists: what is paged through is what is stored
+	mutationFailed, failedOp := false, ""
+	if c.FailK >= 0 {
+		router := mux.NewRouter()
+		router.Use(auth.Middleware(userId))
+		router.Path("/graphql").Handler(h)
+		fr.AbortAt = len(fr.Log) + c.FailK
+		_, body, _ := gqlDo(router, fmt.Sprintf(`mutation { addComment(input: {prefix: %q, message: "sent while the disk was full"}) { bug { id } } }`, bid), nil)
+		mutationFailed = body == nil || body["errors"] != nil
+		if fr.AbortAt < len(fr.Log) && strings.HasSuffix(fr.Log[fr.AbortAt], "(failed)") {
+			failedOp = strings.Fields(strings.TrimSuffix(fr.Log[fr.AbortAt], "(failed)"))[0]
+		}
+		fr.AbortAt = -1
+	}
+	// The comparison with git is made unless the request failed and the bug may legitimately be ahead of its
+	// reference: the failed operation was the reference update itself (commits written, reference pending), or the
+	// cache says operations are still waiting for a commit.
+	compareWithStored := true
+	if mutationFailed {
+		pending := true
+		if rcd, err := mrc.DefaultRepo(); err == nil {
+			if bc, err := rcd.Bugs().Resolve(entity.Id(bid)); err == nil {
+				pending = bc.NeedCommit()
+			}
+		}
+		compareWithStored = failedOp != "" && failedOp != "UpdateRef" && !pending
+	}
+	storedIds := func(what string) []string {
+		ro, err := repository.OpenGoGitRepo(r.Path, "git-bug", nil)
+		if err != nil {
+			tb.Fatalf("harness: %v", err)
+		}
+		defer ro.Close()
+		b, err := bug.Read(ro, entity.Id(bid))
+		if err != nil {
+			tb.Fatalf("harness: stored bug unreadable: %v", err)
+		}
+		var out []string
+		if what == "bug.operations" {
+			for _, op := range b.Operations() {
+				out = append(out, string(op.Id()))
+			}
+		} else {
+			for _, cm := range b.Compile().Comments {
+				out = append(out, string(cm.CombinedId()))
+			}
+		}
+		return out
 	}
 	pages := 0
 	multi := false
@@ -727,6 +787,13 @@ func runC20Walk(tb report.TB, rep *report.Reporter, c c20WalkCase) {
 				return
 			}
 			continue
+		}
+		if compareWithStored && (l.name == "bug.operations" || l.name == "bug.comments") {
+			if want := storedIds(l.name); strings.Join(want, ",") != strings.Join(full.keys, ",") {
+				if fail("served-list-differs-from-the-stored-bug", fmt.Sprintf("a mutation was sent before: %v (failed: %v at %s)\nstored %v\nserved %v", c.FailK >= 0, mutationFailed, failedOp, want, full.keys)) {
+					return
+				}
+			}
 		}
 		n := len(full.keys)
 		if full.total != n || len(setOf(full.keys)) != n {
@@ -801,7 +868,7 @@ func runC20Walk(tb report.TB, rep *report.Reporter, c c20WalkCase) {
 		}
 	}
 	rep.Class("pages-requested", pages)
-	rep.Case(fmt.Sprintf("walk|i%d|b%d|c%v|l%v", c.NIdent, c.NBugs, c.Comments, c.Labels), multi, []string{fmt.Sprintf("identities:%d", c.NIdent), fmt.Sprintf("bugs:%d", c.NBugs)}, c)
+	rep.Case(fmt.Sprintf("walk|i%d|b%d|c%v|l%v", c.NIdent, c.NBugs, c.Comments, c.Labels), multi, []string{fmt.Sprintf("identities:%d", c.NIdent), fmt.Sprintf("bugs:%d", c.NBugs), fmt.Sprintf("a-mutation-failed-half-way-before-the-walks:%v", mutationFailed), "failed-storage-operation:" + failedOp}, c)
 }
 
 func TestC20GraphQL(t *testing.T) {
